@@ -329,10 +329,19 @@ impl<'a> Monitor<'a>
 {
     pub fn new(cfg: &'a Config) -> Self
     {
-        let actors = cfg.actors.iter().map(|v| AActor{
+        let mut actors: Vec<AActor> = cfg.actors.iter().map(|v| AActor{
             alive: true, doomed: false, must_be_dead: false, variant: *v, runs: 0, once: false, once_ran: false,
             refcounted: false, sampled_from: 0, canary_dropped: false, killed: false,
         }).collect();
+        if let (Some(v), true) = (cfg.ewr, cfg.app_reactors.is_empty())
+        {
+            // the entity world reactor's system exists from the start (app reactors, if any, are added first through
+            // their setup operations and the world reactor is then appended by `add_actor`)
+            actors.push(AActor{
+                alive: true, doomed: false, must_be_dead: false, variant: v, runs: 0, once: false, once_ran: false,
+                refcounted: false, sampled_from: 0, canary_dropped: false, killed: false,
+            });
+        }
         let mut ents: Vec<AEnt> = (0..cfg.n_ents).map(|i| AEnt{ signal: cfg.auto_ents.contains(&i), actor_signals: cfg.actor_signals.iter().filter(|(_, e)| *e == i).count() as u32, doomed: false, alive: true, comps: [None, None], parent: None }).collect();
         for (c, p) in cfg.children.iter() { ents[*c as usize].parent = Some(*p); }
         Monitor{
@@ -750,6 +759,35 @@ impl<'a> Monitor<'a>
             Op::Gc => {}
             Op::Poll => { self.gc_irrelevant(); }
             Op::Nop => {}
+            Op::EwrAdd(e) =>
+            {
+                if let Some(a) = self.cfg.ewr_actor()
+                {
+                    if self.actors.len() <= a as usize { self.add_actor(a, self.cfg.ewr.unwrap_or(Variant::Plain), false); }
+                    if issued.issue_ok && self.ents[e as usize].alive
+                    {
+                        self.register(a, &Bundle::two(Trig::EntityEvent(Ev::A, e), Trig::EntityMutation(Comp::A, e)), Mode::Persistent, None);
+                    }
+                }
+            }
+            Op::EwrRemove(e, w) =>
+            {
+                if let Some(a) = self.cfg.ewr_actor()
+                {
+                    let trigs: Vec<Trig> = match w
+                    {
+                        0 => vec![Trig::EntityEvent(Ev::A, e)],
+                        1 => vec![Trig::EntityMutation(Comp::A, e)],
+                        _ => vec![Trig::EntityEvent(Ev::A, e), Trig::EntityMutation(Comp::A, e)],
+                    };
+                    for r in self.regs.iter_mut()
+                    {
+                        if r.live && r.actor == a && trigs.contains(&r.trig) { r.live = false; }
+                    }
+                    self.revoked_since_table_ok = true;
+                    self.update_refcounts();
+                }
+            }
             Op::DropSignal(e) =>
             {
                 let x = &mut self.ents[e as usize];
@@ -2074,6 +2112,11 @@ impl<'a> Monitor<'a>
             TEv::Quiescent{ snap, live } => self.on_quiescent(snap, live),
             TEv::Value{ what, .. } =>
             {
+                if what == "app-reactor-not-spawned"
+                {
+                    self.viol("C13", "R-state", "registration-without-own-system".into(),
+                        "a reactor registered with App::add_reactor did not get a system of its own".into());
+                }
                 if let Some(which) = what.strip_prefix("reader-api-inconsistent:")
                 {
                     self.viol("C03", "R-data", format!("reader-api-inconsistent:{which}"),
